@@ -186,6 +186,9 @@ def fcLoop (fx : Fixes) : List Nat → Nat → Step
           | .ok out d => .ok (w ++ out) d
           | r => r
       if c > 1 then
+        -- repaired (`fx.foldRoom`): `if (unlikely(dmax < 5)) goto too_small;` at the top of the branch; as is: no test at all
+        if fx.foldRoom && decide (dmax < 5) then .fail ESNOSPC 2
+        else
         let t := towfcCore cp
         if t.1 < 0 then .fail t.1.natAbs 1        -- `return rc` (negative), no handler, dest not terminated
         else if 0x1f80 ≤ cp ∧ cp ≤ 0x1ff4 then
